@@ -7,7 +7,7 @@ From SV Require Import Model.Common Model.TfUtf8 Model.TfUnescape Model.Template
      Model.TinyRegex Model.Transforms
      Spec.TfUtf8Spec Spec.TfUnescapeSpec Spec.TransformsSpec
      Proofs.TfUtf8Proofs Proofs.TfUnescapeProofs Proofs.TemplateProofs Proofs.TfStringFacts
-     Proofs.ExtractorProofs Proofs.PatternProofs Proofs.TransformsProofs.
+     Proofs.ExtractorProofs Proofs.PatternProofs Proofs.TransformsProofs Proofs.LoadProofs.
 From Coq Require Import Permutation.
 Open Scope N_scope.
 
@@ -155,6 +155,13 @@ Theorem C15_drop_program_invariant : forall O rs ts cs, dinv_tfs ts -> Forall di
 Proof. exact dinv_stream. Qed.
 Print Assumptions C15_drop_program_invariant.
 
+(* in particular for EVERY configuration the loader accepts (verify + construct: counters start at 0/0,
+   1 <= percentage <= 100), along every stream, whatever the nesting *)
+Theorem C15_loaded_program_drop_invariant : forall O schema l ts cs rs, load O schema l = LOk ts ->
+  Forall dinv_tfs (run_states O ts cs rs).
+Proof. exact load_drop_invariant. Qed.
+Print Assumptions C15_loaded_program_drop_invariant.
+
 Theorem C15_drop_invariant_is_bound : forall rate matched dropped, drop_ok rate matched dropped -> rate <> 100%Z ->
   (Z.abs (100 * dropped - rate * matched) <= 100)%Z.
 Proof. exact drop_ok_bound. Qed.
@@ -167,6 +174,16 @@ Theorem C15_drop_all : forall O m label matched dropped cs r,
   else Ok (TDrop m 100%Z label matched dropped, cs, r, true).
 Proof. exact drop_all_lemma. Qed.
 Print Assumptions C15_drop_all.
+
+(* the custom counters: a matched record adds (1, RawLength) to the label when dropped, to "!"+label
+   when retained, and to nothing else *)
+Theorem C15_drop_accounting : forall m rate label matched dropped cs rawlen t' cs' b,
+  run_drop_matched m rate label matched dropped cs rawlen = (t', cs', b) ->
+  let hit := if b then 33 :: label else label in
+  forall q, cnt_sum cs' q =
+    (let (c, n) := cnt_sum cs q in if bytes_eqb hit q then (c + 1, n + rawlen)%Z else (c, n)).
+Proof. exact drop_accounting_lemma. Qed.
+Print Assumptions C15_drop_accounting.
 
 (* ---- composition, switch, if, block ---- *)
 
